@@ -196,10 +196,11 @@ func c20Times(tier string) []c20Time {
 		{"2024-01-01", time.Date(2024, 1, 1, 0, 0, 0, 0, time.UTC)},
 		// max int64 ns is 2262-04-11T23:47:16.854775807Z; +1 min still fits
 		{"2262-04-11T23:45:00Z", time.Date(2262, 4, 11, 23, 45, 0, 0, time.UTC)},
+		{"35235s+30ns", time.Unix(35235, 30).UTC()}, // a sub-second part
 	}
 	if tier == "thorough" {
 		ts = append(ts,
-			c20Time{"35235s+30ns", time.Unix(35235, 30).UTC()},
+			c20Time{"2031-03-04T05:06:07.999999999Z", time.Date(2031, 3, 4, 5, 6, 7, 999999999, time.UTC)},
 			c20Time{"epoch", time.Unix(0, 0).UTC()},
 			// block time + 60 s == MaxInt64 ns exactly
 			c20Time{"2262-04-11T23:46:16.854775807Z", time.Date(2262, 4, 11, 23, 46, 16, 854775807, time.UTC)},
@@ -687,6 +688,14 @@ func (d *c20Dims) evalWarm(idx, warm int) (res c20Result) {
 		add("C20/signers-not-exactly-owner", fmt.Sprintf("GetSigners() = %v, want exactly [%x] for owner %s", signers, owner.Addr, owner.Str), nil)
 	}
 
+	// --- stateless validation, as baseapp runs it before the handler -------
+	// every case of the alphabet has a valid bech32 owner and a set inner message, which is all the
+	// message's documented validation demands: a rejection here means the supplied message is not sent
+	if err := msg.ValidateBasic(); err != nil {
+		add("C20/supplied-message-rejected-by-stateless-validation", fmt.Sprintf("ValidateBasic: %v (owner %s, inner %s, %d value bytes)", err, owner.Str, refURL, len(refBz)), nil)
+		return
+	}
+
 	// --- call the real handler -------------------------------------------
 	ctx := sdk.NewContext(nil, tmproto.Header{Time: bt.T, Height: 1}, false, log.NewNopLogger())
 	k := intertxkeeper.NewKeeper(cdc, c20ICA{env}, c20Cap{env})
@@ -853,7 +862,7 @@ func C20(tier string) int {
 	o := runner.New("C20", tier, "exploration")
 	o.Assumptions = []string{
 		"the ICA controller keeper and the capability keeper are replaced by recording fakes that implement the interfaces of x/intertx/keeper/expected_keepers.go; what ibc-go does with the packet after SendTx is out of scope",
-		"messages reach the handler the way baseapp delivers them: ValidateBasic passed (owner is a valid bech32 address, msg is set) and the inner Any is unpacked (both an in-memory message and a marshal/unmarshal round trip through the ProtoCodec are exercised)",
+		"messages reach the handler the way baseapp delivers them: ValidateBasic is run first and must pass for every case of the alphabet (owner is a valid bech32 address, msg is set) and the inner Any is unpacked (both an in-memory message and a marshal/unmarshal round trip through the ProtoCodec are exercised)",
 		"'unmodified' is decided on the deterministic gogoproto encoding: type URL and value bytes of the single Any in the packet equal those of an independently built copy of the supplied message (inner messages contain no protobuf map fields)",
 		"block times are at or after the Unix epoch and block time + 1 min fits int64 nanoseconds (the largest enumerated time makes the timeout exactly MaxInt64 in the thorough tier)",
 		"the port derived from the owner is the string \"icacontroller-\" + owner as documented for icatypes.NewControllerPortID; the capability name is \"capabilities/ports/<port>/channels/<channel>\"",
